@@ -17,10 +17,15 @@
     WAL        txs    — committed graph transactions 0 … txs-1 (CommitTx fsync'ed)
                ckpt   — `Checkpoint.up_to_txid` of the last manifest: replay skips transactions < ckpt
                msegs  — number of segments the last `ManifestSwitch` lists (0 = no manifest: root 0)
+               first  — records of transactions < first are physically gone (close-time rewrite)
 
   Writer steps at file level (order of the source, engine.rs `commit` / `compact`):
     commit  : cW (WAL records + CommitTx + fsync, index pages in place)  →  cI (idmap pages)
     compact : kP (segment pages + sync) → kS (property tree in place) → kM (ManifestSwitch+Checkpoint in WAL)
+  Close (`Db::close` → `checkpoint_on_close`): when no run is unmerged (`ckpt = txs`) the WAL is REPLACED
+  (written to a temp file, renamed over the log — `Wal::rewrite_as_snapshot`) by one transaction holding
+  the labels, the current manifest and a checkpoint: the older records are gone (`first := txs`);
+  otherwise both files are only synced.  Afterwards the handle is closed until `reopen`.
   Backup steps: bStart → bPf (whole page file: ONE step — `std::io::copy`, no hook inside) → bWal.
 -/
 namespace Nervus.BackupLTS
@@ -36,6 +41,7 @@ structure Wal where
   txs : Nat
   ckpt : Nat
   msegs : Nat
+  first : Nat
   deriving DecidableEq, Repr
 
 inductive Mode where
@@ -54,6 +60,7 @@ structure State where
   wal : Wal
   mode : Mode
   hasIndex : Bool
+  closed : Bool          -- the writer's handle is closed (no writer step until `reopen`)
   bk : Bk
   sawCommit : Bool       -- a commit step ran between bPf and bWal
   sawCompact : Bool      -- a compaction step ran between bPf and bWal
@@ -61,7 +68,7 @@ structure State where
   deriving DecidableEq, Repr
 
 inductive Label where
-  | cW | cI | kP | kS | kM | bStart | bPf | bWal | bForget
+  | cW | cI | kP | kS | kM | close | reopen | bStart | bPf | bWal | bForget
   deriving DecidableEq, Repr
 
 def between (s : State) : Bool := match s.bk with
@@ -77,15 +84,24 @@ def noteCommit (s : State) : State :=
 def noteCompact (s : State) : State :=
   { s with sawCompact := s.sawCompact || between s, sawAny := s.sawAny || inBackup s }
 
+/-- `checkpoint_on_close`: rewrite the log as one snapshot transaction when no run is unmerged -/
+def closeWal (w : Wal) : Wal := { w with first := if w.ckpt = w.txs then w.txs else w.first }
+
+def noteClose (s : State) : State := { s with sawAny := s.sawAny || inBackup s }
+
 def step (s : State) : Label → Option State
-  | .cW => if s.mode = .idle then
+  | .close => if s.mode = .idle ∧ s.closed = false then
+      some (noteClose { s with closed := true, wal := closeWal s.wal })
+    else none
+  | .reopen => if s.closed = true then some { s with closed := false } else none
+  | .cW => if s.mode = .idle ∧ s.closed = false then
       some (noteCommit { s with mode := .midCommit, wal := { s.wal with txs := s.wal.txs + 1 },
                                 pf := { s.pf with index := if s.hasIndex then s.pf.index + 1 else s.pf.index } })
     else none
   | .cI => if s.mode = .midCommit then
       some (noteCommit { s with mode := .idle, pf := { s.pf with nodes := s.pf.nodes + 1 } })
     else none
-  | .kP => if s.mode = .idle ∧ s.wal.ckpt < s.wal.txs then     -- `compact` returns early when there are no runs
+  | .kP => if s.mode = .idle ∧ s.closed = false ∧ s.wal.ckpt < s.wal.txs then     -- `compact` returns early when there are no runs
       some (noteCompact { s with mode := .compact1, pf := { s.pf with segs := s.pf.segs + 1 } })
     else none
   | .kS => if s.mode = .compact1 then
@@ -108,7 +124,7 @@ def step (s : State) : Label → Option State
     | _ => none
 
 def init (hasIndex : Bool) : State :=
-  { pf := ⟨0, 0, 0, 0⟩, wal := ⟨0, 0, 0⟩, mode := .idle, hasIndex := hasIndex, bk := .none,
+  { pf := ⟨0, 0, 0, 0⟩, wal := ⟨0, 0, 0, 0⟩, mode := .idle, hasIndex := hasIndex, closed := false, bk := .none,
     sawCommit := false, sawCompact := false, sawAny := false }
 
 inductive Reach (s0 : State) : State → Prop where
@@ -143,6 +159,7 @@ structure Content where
 def recover (pf : PF) (w : Wal) : Option Content :=
   if pf.segs < w.msegs then none              -- manifest points at segment pages absent from the page file
   else if pf.nodes < w.ckpt then none         -- replay starts beyond the next dense internal id
+  else if w.ckpt < w.first then none          -- records that would have to be replayed were rewritten away
   else some {
     nodes := max pf.nodes w.txs,
     edgesTo := w.txs,                         -- segments cover [0,ckpt), replayed runs cover [ckpt,txs)
